@@ -131,8 +131,8 @@ Print Assumptions C20_redirect_monitor_accepts_model.
 
 (* The correspondence monitors accept the model's own prediction for every input; a further
    (Accept, X-Requested-With) combination is accepted when the handler serves the same page as
-   HTML or the model's JSON body as JSON; and a body served under an HTML type is accepted only
-   with the benign skeleton. *)
+   HTML or the model's JSON body as JSON; and a non-empty body served under an HTML type is
+   accepted only with the benign skeleton (an empty body carries nothing). *)
 Theorem C20_monitors_accept_model :
   (forall svc page field ctx payload, judge (CHole svc page field ctx payload (html_replace payload)) = 0) /\
   (forall svc msg, judge (CJson svc msg ct_json (if svc =? 0 then proxy_xhr_json msg else auth_error_json msg) []) = 0) /\
@@ -147,7 +147,7 @@ Theorem C20_monitors_accept_model :
   (forall svc data real benign,
      var_mismatch real (model_json svc data) (Var 1 ct_json (Some [SLit (model_json svc data)]) None) = false /\
      var_holds real benign (Var 1 ct_json (Some [SLit (model_json svc data)]) None) = true) /\
-  (forall body benign, resp_inert ct_html body benign = true -> skeleton body = skeleton benign).
+  (forall body benign, body <> [] -> resp_inert ct_html body benign = true -> skeleton body = skeleton benign).
 Proof.
   exact (conj judge_hole_model (conj judge_json_model (conj judge_same_model (conj judge_page_model
         (conj var_same_page_ok (conj var_json_ok resp_inert_html_needs_skeleton)))))).
